@@ -107,6 +107,35 @@ func init() {
 			}
 			return e.indexByte(x, a[1].(*Term))
 		},
+		"internal/bytealg.CountString": func(e *Engine, st *State, a []Value, c *ssa.CallCommon) Value {
+			s := a[0].(*StringV)
+			acc := e.ts.BVi(0, 64)
+			for _, b := range s.B {
+				acc = e.ts.Bin(OpBvAdd, acc, e.ts.BoolToBV(e.ts.Eq(b, a[1].(*Term)), 64))
+			}
+			return acc
+		},
+		"internal/bytealg.Count": func(e *Engine, st *State, a []Value, c *ssa.CallCommon) Value {
+			x, _ := e.sliceElems(st, a[0].(*SliceV))
+			acc := e.ts.BVi(0, 64)
+			for _, b := range x {
+				acc = e.ts.Bin(OpBvAdd, acc, e.ts.BoolToBV(e.ts.Eq(b.(*Term), a[1].(*Term)), 64))
+			}
+			return acc
+		},
+		"maps.clone": func(e *Engine, st *State, a []Value, c *ssa.CallCommon) Value {
+			iv, ok := a[0].(*IfaceV)
+			if !ok || iv.T == nil {
+				return a[0]
+			}
+			m, ok := iv.V.(*MapV)
+			if !ok || m.Obj == 0 {
+				return a[0]
+			}
+			mo := e.mapObj(st, m)
+			p := e.newObj(st, iv.T, &MapObj{E: append([]MapEntry(nil), mo.E...)}, "map")
+			return &IfaceV{T: iv.T, V: &MapV{Obj: p.Obj}}
+		},
 		"runtime.KeepAlive":        func(e *Engine, st *State, a []Value, c *ssa.CallCommon) Value { return nil },
 		"runtime.SetFinalizer":     func(e *Engine, st *State, a []Value, c *ssa.CallCommon) Value { return nil },
 		"runtime.Gosched":          func(e *Engine, st *State, a []Value, c *ssa.CallCommon) Value { return nil },
@@ -374,7 +403,7 @@ func (e *Engine) modelByPattern(st *State, fn *ssa.Function, key string, args []
 		case "time.Sleep":
 			return nil, true
 		}
-	case "runtime/debug":
+	case "runtime/debug", "crypto/internal/fips140", "crypto/internal/fips140only":
 		return zeroResults(e, fn), true
 	case "context":
 		if name == "Err" || name == "Done" {
